@@ -1709,6 +1709,89 @@ def check_sequences(ctx, res):
             res.count("oracle:sequence-history-independent")
 
 
+# ---- (D) unparameterised containers: contents are passed through by contract, the container itself is still the call's own
+BARE_SRC = """
+import collections, dataclasses, typing
+@dataclasses.dataclass
+class Event:
+    name: str
+    meta: dict
+    tags: list = dataclasses.field(default_factory=list)
+class Conf(typing.TypedDict):
+    opts: typing.Mapping
+"""
+BARE_CASES = [("dict", "{'host': 'a1', 'retries': 3}"), ("typing.Mapping", "{'host': 'a1', 'retries': 3}"), ("typing.Dict", "{'k': 1}"),
+              ("collections.abc.MutableMapping", "{'k': 1}"), ("None", "{'host': 'a1', 'retries': 3}"), ("list", "[1, 'a', 2.5]"),
+              ("typing.List", "[1, 2]"), ("None", "[1, 'a']"), ("typing.Sequence", "[1, 2]"), ("set", "{1, 2}"),
+              ("Event", "Event('boot', {'host': 'a1', 'retries': 3}, ['x'])"), ("list[Event]", "[Event('boot', {'k': 1}, [1])]"),
+              ("Conf", "{'opts': {'a': 1}}"), ("dict[str, dict]", "{'a': {'k': 1}}"), ("dict[str, list]", "{'a': [1, 2]}")]
+
+
+def _bare_child(case):
+    """marshal / encode of flat values under unparameterised container annotations: r1 = f(x); deep-mutate r1; x and f(x) are as
+    in a cold run; deep-mutate x; the earlier result is unchanged; two results share no mutable container with x or each other."""
+    warnings.simplefilter("ignore")
+    import sys
+    import types
+    import typelib
+    mod = types.ModuleType("vm_c12_bare")
+    sys.modules["vm_c12_bare"] = mod
+    ns = mod.__dict__
+    exec(BARE_SRC, ns)
+    t = eval(case[0], ns)
+    mk = lambda: eval(case[1], ns)     # noqa: E731
+    call = (lambda v: typelib.marshal(v)) if t is None else (lambda v: typelib.marshal(v, t=t))
+    out = []
+    x = mk()
+    cold = describe(call(mk()))
+    x0 = describe(x)
+    r1 = call(x)
+    ids_x, ids_r1 = set(), set()
+    _mutable_ids(x, ids_x)
+    _mutable_ids(r1, ids_r1)
+    if ids_x & ids_r1:
+        out.append("the result shares a mutable container with the input")
+    r2 = call(x)
+    ids_r2 = set()
+    _mutable_ids(r2, ids_r2)
+    if ids_r1 & ids_r2:
+        out.append("two calls returned the same mutable container")
+    snap2 = describe(r2)
+    deep_mutate(r1)
+    if describe(x) != x0:
+        out.append(f"deep-mutating a returned result changed the input: {describe(x)!r} (was {x0!r})"[:300])
+    r3 = describe(call(mk()))
+    if r3 != cold:
+        out.append("marshal of an equal fresh input differs after an earlier result was deep-mutated")
+    if describe(r2) != snap2:
+        out.append("deep-mutating one result changed another call's result")
+    y = mk()
+    r4 = call(y)
+    snap4 = describe(r4)
+    deep_mutate(y)
+    if describe(r4) != snap4:
+        out.append(f"deep-mutating a passed input changed the result returned earlier: {describe(r4)!r} (was {snap4!r})"[:300])
+    if t is not None:
+        e1 = typelib.encode(mk(), t=t)
+        z = mk()
+        deep_mutate(typelib.marshal(z, t=t))
+        if typelib.encode(z, t=t) != e1:
+            out.append("encode differs after the caller deep-mutated an earlier marshal result of the same object")
+    return out
+
+
+def check_bare(ctx, res):
+    outs = iso.map_isolated(_bare_child, BARE_CASES, timeout=60.0)
+    for case, o in zip(BARE_CASES, outs):
+        if not isinstance(o, list):
+            raise RuntimeError(f"harness: bare-container probe failed: {case}: {o}")
+        res.case({"bare": list(case)}, True)
+        if o:
+            res.failures.append({"what": f"marshal({case[1]}, t={case[0]}): " + "; ".join(o), "input": {"bare_case": list(case)}, "observed": o})
+        else:
+            res.count("oracle:bare-container-results-are-the-call's-own")
+
+
 def explore(ctx):
     res = Result()
     res.rule = RULE
@@ -1717,6 +1800,7 @@ def explore(ctx):
     res.extra["site_table"] = {k: {x: v[x] for x in ("congruent", "shared", "mutable", "public", "good")} for k, v in table.items()}
     check_sites(ctx, res, table)
     check_sequences(ctx, res)
+    check_bare(ctx, res)
     internal = iso.map_isolated(_internal_child, [None], timeout=120.0)[0]
     if isinstance(internal, dict) and "crash" in internal:
         raise RuntimeError(f"harness: internal-site probe failed: {internal}")
@@ -1762,6 +1846,10 @@ def witness(fid):
 def replay(failure):
     inp = failure["input"]
     core.import_typelib()
+    if "bare_case" in inp:
+        o = iso.map_isolated(_bare_child, [tuple(inp["bare_case"])], timeout=60.0)[0]
+        print(json.dumps({"case": inp["bare_case"], "observed": o}, indent=1, default=str))
+        return bool(o)
     if "sequence" in inp:
         seq = [tuple(h) for h in inp["sequence"]]
         w, c = iso.map_isolated(_seq_child, [seq, [seq[-1]]], timeout=60.0)
